@@ -3,6 +3,7 @@ mod asmseq;
 mod dump;
 mod sym;
 mod exec;
+mod hints;
 mod masm;
 mod parse;
 mod serde;
@@ -32,6 +33,7 @@ fn run_family(family: &str, path: &str) {
             "asmdump" => masm::run_asmdump(&line),
             "serde" => serde::run_serde(&line),
             "asmseq" => asmseq::run_asmseq(&line),
+            "mtree" => hints::run_mtree(&line),
             _ => panic!("unknown family {family}"),
         };
         // result lines carry a marker: the default host prints debug decorators to stdout
